@@ -53,7 +53,7 @@ func toRegexString(pattern string) string {
 	b.WriteByte('^')
 	for i := 0; i < len(pattern); {
 		switch c := pattern[i]; {
-		case strings.HasPrefix(pattern[i:], "**/") && i > 0 && pattern[i-1] == '/':
+		case strings.HasPrefix(pattern[i:], "**/") && (i == 0 || pattern[i-1] == '/'):
 			b.WriteString("(.*/)?") // Allow ** to match zero directories
 			i += 3
 		case strings.HasPrefix(pattern[i:], "**"):
